@@ -72,6 +72,32 @@ def make(ending, rec, done):
     elif ending == 'function':
         def f():
             last()
+    elif ending == 'function_raises':
+        def f():
+            last()
+            raise UserError()
+    elif ending == 'late_nested':
+        # the routine runs LATE (busy body); a routine nested in it must inherit the LOGICAL time of its
+        # parent, not the physical time, and so must a routine nested two levels down
+        def inner2():
+            rec['inner2_logical'] = now_logical()
+            yield 1
+        def inner():
+            rec['inner_logical'] = now_logical()
+            r3 = Routine(inner2)
+            r3.next()
+            yield 1
+        def f():
+            yield 0.01
+            rec['outer_logical'] = now_logical()
+            t0 = time.time()
+            while time.time() - t0 < 0.06:
+                pass
+            r2 = Routine(inner)
+            r2.next()
+            rec['outer_logical_after'] = now_logical()
+            rec['physical_after'] = main.elapsed_time()
+            last()
     elif ending == 'nested_ends':
         def inner():
             yield 1
@@ -112,20 +138,29 @@ def settle(timeout=2.0):
         time.sleep(0.01)
 
 
-def scenario(clock_name, clock, ending, sleep_check):
+def scenario(clock_name, clock, ending, sleep_check, other_clock=None):
     out = {'clock': clock_name, 'ending': ending, 'violations': []}
     v = out['violations']
     rec, done = {}, threading.Event()
-    r = Routine(make(ending, rec, done))
-    rec['routine'] = r
-    r.play(clock)
+    if ending == 'sched_function_raises':
+        # not a routine: a plain callable handed to clock.sched (wrapped by the library, woken via __awake__)
+        def plain():
+            rec['end_logical'] = now_logical()
+            done.set()
+            raise UserError()
+        r = None
+        clock.sched(0, plain)
+    else:
+        r = Routine(make(ending, rec, done))
+        rec['routine'] = r
+        r.play(clock)
     if not done.wait(3.0):
         out['skipped'] = 'the routine did not finish within 3 s'
         return out
     flag, cur = settle()
     out['in_awake_call_after'] = flag
     out['current_tt_is_main'] = cur
-    out['state'] = r.state.name
+    out['state'] = r.state.name if r is not None else None
     if not cur:
         v.append('after the routine ended (%s) main.current_tt is not main.main_tt' % ending)
     if flag:
@@ -133,6 +168,16 @@ def scenario(clock_name, clock, ending, sleep_check):
                  'cleared on this exit path' % ending)
     if rec.get('cur_is_self') is False or rec.get('nested_cur_ok') is False:
         v.append('inside the body main.current_tt was not the routine (after a nested routine ended)')
+    if ending == 'late_nested':
+        o, a, b = rec.get('outer_logical'), rec.get('inner_logical'), rec.get('inner2_logical')
+        out['late'] = {k: rec.get(k) for k in ('outer_logical', 'inner_logical', 'inner2_logical', 'outer_logical_after', 'physical_after')}
+        if not (o == a == b == rec.get('outer_logical_after')):
+            v.append('a routine running 0.06 s late at logical time %r started nested routines at logical %r and %r '
+                     '(they must inherit the parent\'s logical time exactly)' % (o, a, b))
+    # several reads of the main thread's time in a row: each refreshes from physical time, never goes back
+    reads = [float(main.main_tt._seconds) for _ in range(5)]
+    if any(y < x for x, y in zip(reads, reads[1:])):
+        v.append('successive reads of the main thread\'s logical time went backwards: %s' % reads)
     t_ref = main.elapsed_time()
     if sleep_check:
         a = float(main.main_tt._seconds)
@@ -155,6 +200,20 @@ def scenario(clock_name, clock, ending, sleep_check):
     p = Routine(probe)
     prec['routine'] = p
     p.play(clock)
+    if other_clock is not None:     # ... and the next UNRELATED operation: a routine played on another clock
+        orec, odone = {}, threading.Event()
+
+        def oprobe():
+            orec['start'] = now_logical()
+            yield 0.005
+            odone.set()
+        t_ref2 = main.elapsed_time()
+        Routine(oprobe).play(other_clock)
+        if odone.wait(3.0):
+            out['other_clock_probe_start'] = orec['start']
+            if orec['start'] < t_ref2:
+                v.append('a routine played on ANOTHER clock from the main thread at physical time >= %.6f started at '
+                         'logical time %.6f: in the past' % (t_ref2, orec['start']))
     if pdone.wait(3.0):
         out['probe_start'] = prec['start']
         out['prev_end_logical'] = rec.get('end_logical')
@@ -183,7 +242,8 @@ def main_():
             continue
         for e in inp['endings']:
             try:
-                res.append(scenario(name, c, e, e in inp.get('sleep_check', [])))
+                other = clocks[(clocks.index((name, c)) + 1) % len(clocks)][1]
+                res.append(scenario(name, c, e, e in inp.get('sleep_check', []), other))
             except BaseException as ex:
                 res.append({'clock': name, 'ending': e, 'violations': [], 'skipped': '%s: %s' % (type(ex).__name__, ex)})
     json.dump({'scenarios': res}, open(sys.argv[2], 'w'))
